@@ -8,7 +8,7 @@ RUNS=${1:-20000}
 fail=0
 for prof in checked wrapping; do
   B=flatsim/target/$prof-td/$prof/flatsim
-  for spec in "batch C02" "batch C03" "batch C09" "batch C10" "batch C16" "batch C20" "batch C13" "batch C14" "idx C05" "idx C19" "huff C06" "dict C07" "allocs C17" "twin C11"; do
+  for spec in "batch C02" "batch C03" "batch C09" "batch C10" "batch C16" "batch C20" "batch C13" "batch C14" "batch C18" "idx C05" "idx C19" "idx C16" "huff C06" "huff C11" "huff C14" "dict C07" "dict C04" "allocs C17" "twin C11" "probe C04"; do
     set -- $spec
     ref=""
     for t in 1 5 16 16; do
